@@ -9,8 +9,8 @@ package main
 // with a minimum that is too late the file was loaded after newer packets of other files had been reassembled, and the
 // content of a stream depended on whether the unordered file was new or known at that import (`a x b c` vs `x ab c`).
 //
-// Rule (typed AST): in package builder an assignment to PcapInfo.PacketTimestampMin / PacketTimestampMax inside a loop
-// lies in an if whose condition reads the same field (the comparison with the bound so far).
+// Rule (typed AST): in package builder an assignment to PcapInfo.PacketTimestampMin / PacketTimestampMax lies
+// in an if whose condition reads the same field (the comparison with the bound so far).
 
 import (
 	"fmt"
@@ -20,7 +20,7 @@ import (
 
 func init() {
 	register("C08",
-		"C08-n (typed AST): in package builder an assignment to PcapInfo.PacketTimestampMin / PacketTimestampMax inside a loop lies in an if whose condition reads the same field — the bound is a running extremum over all packets, not the timestamp of the first or last one. The replay of known captures is scheduled by these bounds; captures from several interfaces or merged files are not in time order, and a minimum that is too late makes the result of an import depend on whether such a file is new or already known.",
+		"C08-n (typed AST): in package builder an assignment to PcapInfo.PacketTimestampMin / PacketTimestampMax lies in an if whose condition reads the same field — the bound is a running extremum over all packets, not the timestamp of the first or last one. The replay of known captures is scheduled by these bounds; captures from several interfaces or merged files are not in time order, and a minimum that is too late makes the result of an import depend on whether such a file is new or already known.",
 		func(p *Prog, r *Res) {
 			const rule = "C08-n capture-time-bounds-are-running-extrema"
 			r.Rule(rule + ": PacketTimestampMin/Max are updated only after a comparison with themselves")
@@ -59,9 +59,7 @@ func init() {
 								})
 							}
 						}
-						if !inLoop {
-							continue
-						}
+						_ = inLoop
 						n++
 						key := fmt.Sprintf("%s updates %s", f.Key(), fld.Name())
 						r.Check(compared, rule, key, p.Pos(as), "assigned only after a comparison with the bound so far", fld.Name()+" is assigned without being compared with its value so far: it ends up as the timestamp of one particular packet (the first, the last), not the extremum — for a capture that is not in time order the replay loads the file too late or skips it although a stream still needs its packets")
